@@ -86,6 +86,11 @@ def ensure_facts(repo=REPO, verbose=True):
     fcntl.flock(lock, fcntl.LOCK_EX)
     try:
         ok = os.path.exists(os.path.join(d, "OK"))
+        if ok:
+            try:
+                os.utime(d, None)
+            except OSError:
+                pass
         if not ok:
             if os.path.isdir(d):
                 shutil.rmtree(d)
@@ -107,7 +112,7 @@ def ensure_facts(repo=REPO, verbose=True):
             # prune old cache entries (keep 6 most recent)
             ents = [e for e in os.listdir(CACHE) if os.path.isdir(os.path.join(CACHE, e))]
             ents.sort(key=lambda e: os.stat(os.path.join(CACHE, e)).st_mtime, reverse=True)
-            for e in ents[6:]:
+            for e in ents[12:]:
                 shutil.rmtree(os.path.join(CACHE, e), ignore_errors=True)
     finally:
         fcntl.flock(lock, fcntl.LOCK_UN)
